@@ -3,6 +3,7 @@ package sim
 import (
 	"fmt"
 	"runtime"
+	"strconv"
 	"strings"
 
 	"go.pennock.tech/tabular"
@@ -149,6 +150,7 @@ type World struct {
 	pendingViolation *Violation
 	tcSizes          map[string]int // printed size of table+columns state per key set
 	liveProbe        int
+	colProbe         int
 	sharedSentinel   error
 	simItems         []*simBase // mutable items created so far
 
@@ -436,6 +438,18 @@ func (w *World) Do(st *Step) bool {
 		w.seps[i].real.Add(tabular.NewCell(v))
 		w.unknownErr++
 		w.Faults["misuse_sep_add"]++
+	case "bulkRows":
+		// A rows of B cells each, added with AddRowItems
+		n, k := pick(400, st.A), pick(8, st.B)
+		for i := 0; i < n; i++ {
+			items := make([]Item, k)
+			for j := range items {
+				items[j] = Item{K: "s", S: "b" + strconv.Itoa(i) + "." + strconv.Itoa(j)}
+			}
+			sub := Step{Op: "rowItems", Items: items}
+			w.Do(&sub)
+		}
+		w.probe("bulk_rows")
 	case "mutate":
 		// the caller changes an item after storing it and does NOT call Update
 		i := pick(len(w.simItems), st.A)
@@ -494,6 +508,9 @@ func (w *World) ApplyRender(st *Step) *RenderOutcome {
 		sw.FaultAt, sw.Mode = st.Plan[0], pick(NFaultModes, st.Plan[1])
 		if len(st.Plan) >= 3 {
 			sw.Frac = pick(100, st.Plan[2])
+		}
+		if len(st.Plan) >= 4 {
+			sw.Err = faultErrors[pick(len(faultErrors), st.Plan[3])]
 		}
 	}
 	ro.Spec = spec
